@@ -127,6 +127,10 @@ func (packet *Packet) GetBindParameters(paramNum int) ([]base.BoundValue, error)
 		// 7 + num-params offset from docs
 		// For COM_STMT_EXECUTE this offset is 0
 		nullBitMapLength := (paramNum + 7) / 8
+		// the packet must carry the NULL bitmap and the new_params_bind_flag
+		if len(packet.data) < pos+nullBitMapLength+1 {
+			return nil, base_mysql.ErrMalformPacket
+		}
 		if nullBitMapLength > 0 {
 			nullBitmap = packet.data[pos : pos+nullBitMapLength]
 		}
@@ -142,6 +146,10 @@ func (packet *Packet) GetBindParameters(paramNum int) ([]base.BoundValue, error)
 	}
 	pos += +1
 
+	// two bytes of type information per parameter
+	if len(packet.data) < pos+2*paramNum {
+		return nil, base_mysql.ErrMalformPacket
+	}
 	//here we need to gather all provided param types
 	paramTypes := make([]byte, paramNum)
 	for i := 0; i < paramNum; i++ {
@@ -157,6 +165,9 @@ func (packet *Packet) GetBindParameters(paramNum int) ([]base.BoundValue, error)
 			continue
 		}
 
+		if pos > len(packet.data) {
+			return nil, base_mysql.ErrMalformPacket
+		}
 		boundValue, n, err := NewMysqlBoundValue(packet.data[pos:], base.BinaryFormat, base_mysql.Type(paramTypes[i]))
 		if err != nil {
 			return nil, err
@@ -360,6 +371,11 @@ func (packet *Packet) getServerCapabilities() uint32 {
 	// https://dev.mysql.com/doc/internals/en/connection-phase-packets.html#idm140437490034448
 	endOfServerVersion := bytes.Index(packet.data[1:], []byte{0}) + 2 // 1 first byte of protocol version and 1 to point to next byte
 	// 4 bytes connection string + 8 bytes of auth plugin + 1 byte filler
+	if len(packet.data) < endOfServerVersion+13+2 {
+		// not a handshake packet we can read capabilities from (e.g. an error packet): no capabilities known
+		logrus.Debug("packet hasn't DB capabilities")
+		return 0
+	}
 	rawCapabilities := packet.data[endOfServerVersion+13 : endOfServerVersion+13+2]
 	return uint32(binary.LittleEndian.Uint16(rawCapabilities))
 }
@@ -396,6 +412,10 @@ func (packet *Packet) getClientExtendedMariaDBCapabilities() uint32 {
 
 func (packet *Packet) getClientCapabilities() uint32 {
 	// https://dev.mysql.com/doc/internals/en/connection-phase-packets.html#idm140437489940880
+	if len(packet.data) < 4 {
+		logrus.Debug("packet hasn't Client capabilities")
+		return 0
+	}
 	return binary.LittleEndian.Uint32(packet.data[:4])
 }
 
